@@ -1,5 +1,7 @@
 /- line-protocol handler for the drange model (C10).  Instants travel as plain integer atoms (µs since 0001-01-01). -/
 import PygModel.DRange
+import PygModel.DateRange
+import PygModel.DateParse
 
 namespace Pyg.DRangeDriver
 open Pyg Pyg.DRange
@@ -14,10 +16,32 @@ def bumpOf : Sexp → Option Bump
   | .node [.atom "int", n] => n.toInt?.map .int
   | .node [.atom "npint", _, n] => n.toInt?.map .int      -- the same integer held by a numpy scalar (`is_int` admits np.int8..int64): an integer is an integer (C10-D1)
   | .node [.atom "td", n] => n.toInt?.map .td
+  | .node [.atom "tdpd", n] => n.toInt?.map .td         -- the same duration as a `pd.Timedelta` (a subclass of `datetime.timedelta`: `isinstance` holds)
   | .node [.atom "p", .atom h] => do
       let s ← hexDecode h
       let ps ← parsePeriod s
       if ps.isEmpty then none else pure (.period ps)
+  | _ => none
+
+/-- an endpoint as `drange` is handed it: `N` = None | `(b <bump>)` = a bump (`is_bump`: `(int n)` with n < 1500, `(td us)`, `(p <hex>)` a
+period string) | `(d <instant>)` = a datetime | `(n k)` = a number that is not a bump (k ≥ 1500: a year, an ordinal, a yyyymmdd integer …),
+read by `dt(k)` = the C04 model `DateParse.num2dtQ` (an offset from today for k = 1500) -/
+def endpointOf (today : Int) : Sexp → Option (Res DateRange.Endpoint)
+  | .atom "N" => some (.ok .none)
+  | .node [.atom "b", .node [.atom "int", n]] => do
+      let n ← n.toInt?
+      if DateRange.intIsBump n then pure (.ok (.bump (.int n))) else none
+  | .node [.atom "b", .node [.atom "td", n]] => n.toInt?.map fun us => .ok (.bump (.delta us))
+  | .node [.atom "b", .node [.atom "p", .atom h]] => do
+      let s ← hexDecode h
+      if Bump.isPeriod s then pure (.ok (.bump (.str s))) else none
+  | .node [.atom "d", t] => t.toInt?.map fun t => .ok (.date t)
+  | .node [.atom "n", k] => do
+      let k ← k.toInt?
+      if DateRange.intIsBump k then none
+      match DateParse.num2dtQ (4 * k) with
+      | .abs r => pure (r.map .date)
+      | .rel us => pure ((Bump.checkRange (today + us)).map .date)
   | _ => none
 
 def renderTs (xs : List Int) : String := "(L" ++ String.join (xs.map fun x => s!" T:{x}") ++ ")"
@@ -29,12 +53,44 @@ def unmodelled (t0 : Int) : Bump → Bool
 
 def handle1 (op : String) (args : List Sexp) : Option String := do
   match op, args with
-  | "run", [t0, t1, b] =>
+  -- `runas k0 k1 t0 t1 b`: the endpoints handed over as OTHER python objects that denote the same instants (`k0`, `k1` ∈ date, ts =
+  -- pd.Timestamp, np / npD = np.datetime64[us] / [D], iso = ISO string, ymd = yyyymmdd integer).  `date_range` (_drange.py:210-264)
+  -- resolves a non-bump endpoint with `dt(t)`; that `dt` of each of these spellings IS the instant is C04 (`dt_of_date`,
+  -- `pandas_roundtrip`, `np2dt_roundtrip`, `iso_str`, `num2dt_yyyymmdd`): the model is handed the instants.  The elements of the
+  -- result are compared as instants (a Timestamp start yields Timestamps from the timedelta / compound loops).
+  | "run", [t0, t1, b] | "runas", [_, _, t0, t1, b] =>
       let t0 ← t0.toInt?; let t1 ← t1.toInt?; let b ← bumpOf b
       if unmodelled t0 b then none
       match drange t0 t1 b with
       | .ok xs => pure ("ok " ++ renderTs xs)
       | .error e => pure ("err " ++ e.render)
+  -- `rune today e0 e1 b`: drange with its endpoints AS GIVEN (None / bumps / dates / numbers), `today` = dt(0) pinned by the harness:
+  -- `date_range` (PygModel/DateRange.lean) first, then the enumeration
+  | "rune", [today, e0, e1, b] =>
+      let today ← today.toInt?; let b ← bumpOf b
+      let e0 ← endpointOf today e0; let e1 ← endpointOf today e1
+      match e0, e1 with
+      | .ok e0, .ok e1 =>
+        match DateRange.dateRange today e0 e1 with
+        | .ok p =>
+          if unmodelled p.1 b then none
+          match drange p.1 p.2 b with
+          | .ok xs => pure ("ok " ++ renderTs xs)
+          | .error e => pure ("err " ++ e.render)
+        | .error e => pure ("err " ++ e.render)
+      | .error e, _ => pure ("err " ++ e.render)
+      | _, .error e => pure ("err " ++ e.render)
+  -- `range today e0 e1`: `date_range(e0, e1)` itself
+  | "range", [today, e0, e1] =>
+      let today ← today.toInt?
+      let e0 ← endpointOf today e0; let e1 ← endpointOf today e1
+      match e0, e1 with
+      | .ok e0, .ok e1 =>
+        match DateRange.dateRange today e0 e1 with
+        | .ok p => pure s!"ok (L T:{p.1} T:{p.2})"
+        | .error e => pure ("err " ++ e.render)
+      | .error e, _ => pure ("err " ++ e.render)
+      | _, .error e => pure ("err " ++ e.render)
   | "crun", [t0, t1, b] =>
       -- Calendar.drange(t0, t1, bump) for a bump that is not a 'kb' string delegates to drange (_drange.py:666-667)
       let t0 ← t0.toInt?; let t1 ← t1.toInt?; let b ← bumpOf b
